@@ -274,6 +274,46 @@ def tlc_trace_seq(module, cfg, trace, timeout=1800, extra_env=None):
             "transitions": res["generated"], "wall": dt, "out": out, "violated": res["violated"]}
 
 
+def tlc_trace_seq_parts(module, cfg, trace, parts=4, boundary='"ev":"new"', timeout=1800):
+    """Sequential validation of a trace made of independent histories (each starting with a `boundary` event):
+    the file is cut at history boundaries into `parts` pieces validated by parallel single-worker TLC processes.
+    Returns dict(events, accepted, states, transitions, wall, rejected=[(history_text, line_in_history)])."""
+    import concurrent.futures
+    lines = [x for x in open(trace).read().splitlines() if x.strip()]
+    starts = [i for i, x in enumerate(lines) if boundary in x]
+    if not starts or starts[0] != 0:
+        raise ToolError("trace %s does not start with a history boundary" % trace)
+    parts = max(1, min(parts, len(starts)))
+    per = (len(starts) + parts - 1) // parts
+    pieces = []
+    for pi in range(parts):
+        hs = starts[pi * per:(pi + 1) * per]
+        if not hs:
+            continue
+        end = starts[(pi + 1) * per] if (pi + 1) * per < len(starts) else len(lines)
+        pp = "%s.part%d" % (trace, pi)
+        with open(pp, "w") as f:
+            f.write("\n".join(lines[hs[0]:end]) + "\n")
+        pieces.append((pp, hs[0], end))
+    t0 = time.time()
+    with concurrent.futures.ThreadPoolExecutor(max_workers=len(pieces)) as ex:
+        results = list(ex.map(lambda pc: tlc_trace_seq(module, cfg, pc[0], timeout=timeout), pieces))
+    out = {"events": len(lines), "accepted": True, "states": 0, "transitions": 0, "wall": time.time() - t0, "rejected": []}
+    for (pp, a, b), r in zip(pieces, results):
+        out["states"] += r["states"]
+        out["transitions"] += r["transitions"]
+        if not r["accepted"]:
+            out["accepted"] = False
+            if r["violated"] and r["matched"] is None:
+                raise ToolError("%s: invariant %s violated while validating %s\n%s" % (module, r["violated"], pp, r["out"][-2000:]))
+            at = a + (r["matched"] or 0)          # 0-based index of the first unmatched event
+            h0 = max(i for i in starts if i <= at)
+            h1 = min([i for i in starts if i > at] + [len(lines)])
+            out["rejected"].append(("\n".join(lines[h0:h1]) + "\n", at - h0 + 1, lines[at]))
+        os.remove(pp)
+    return out
+
+
 # ----------------------------------------------------------------------
 # known findings, evidence, verdicts
 
